@@ -102,18 +102,18 @@ theorem Inv_atom (R : ViewRel) (s : PState) (F : KFs) (h : Inv R s F) (a : Atom)
     exact ⟨⟨hl.view, by show s.acked + 1 ≤ s.done; omega, hl.done_le, hl.infl⟩, h.manifest, h.mem, h.sst, h.vlogNZ⟩
   | kmk id =>
     simp only [Atom.rawOps, Atom.rawEff, krun_mkFile]
-    have hg' : (s.kout.any (fun o => o.id == id && o.stage == 0) = true ∧ s.flusherHolds id = false) ∧
-        (aget id s.tset).isNone = true := by simpa [Atom.guard] using hg
-    exact Inv_kmk R s F h id hg'.1.1 hg'.1.2 hg'.2
+    have hg' : ((s.kout.any (fun o => o.id == id && o.stage == 0) = true ∧ s.flusherHolds id = false) ∧
+        (aget id s.tset).isNone = true) ∧ (aget id s.tsetD).isNone = true := by simpa [Atom.guard] using hg
+    exact Inv_kmk R s F h id hg'.1.1.1 hg'.1.1.2 hg'.1.2
   | kwrite id =>
-    have hg' : (s.kout.any (fun o => o.id == id && o.stage == 1) = true ∧ s.flusherHolds id = false) ∧
-        (aget id s.tset).isNone = true := by simpa [Atom.guard] using hg
-    obtain ⟨o, ho, hoid⟩ := List.any_eq_true.mp hg'.1.1
+    have hg' : ((s.kout.any (fun o => o.id == id && o.stage == 1) = true ∧ s.flusherHolds id = false) ∧
+        (aget id s.tset).isNone = true) ∧ (aget id s.tsetD).isNone = true := by simpa [Atom.guard] using hg
+    obtain ⟨o, ho, hoid⟩ := List.any_eq_true.mp hg'.1.1.1
     have hoid' : o.id = id ∧ o.stage = 1 := by simpa using hoid
     have hfind : s.kout.find? (fun x => x.id == id) = some o := by
       rw [← hoid'.1]; exact find?_id_of_nodup _ h.sst.koutNodup o ho
     simp only [Atom.rawOps, Atom.rawEff, hfind, krun_append1]
-    exact Inv_kwrite R s F h id o ho hoid'.1 hoid'.2 hg'.1.2 hg'.2
+    exact Inv_kwrite R s F h id o ho hoid'.1 hoid'.2 hg'.1.1.2 hg'.1.2
   | kmset =>
     simp only [Atom.rawOps, Atom.rawEff, krun_append1]
     have hg1 : s.kins ≠ [] := by
@@ -179,7 +179,7 @@ theorem Inv_flushAtom (R : ViewRel) (s s' : PState) (F : KFs) (h : Inv R s F) (o
           exact Inv_of_eq R _ _ _ (Inv_flush0 R s F h hne hp) (by constructor <;> first | rfl | exact hi.symm)
         · rw [hp] at hf
           simp only at hf
-          by_cases hgd : (aget s.fsst s.tset).isNone = true ∧ (!s.kout.any (fun o => o.id == s.fsst)) = true
+          by_cases hgd : ((aget s.fsst s.tset).isNone = true ∧ (!s.kout.any (fun o => o.id == s.fsst)) = true) ∧ (aget s.fsst s.tsetD).isNone = true
           · rw [if_pos hgd] at hf
             injection hf with hf; injection hf with h1 h2
             subst h1; subst h2
@@ -187,8 +187,8 @@ theorem Inv_flushAtom (R : ViewRel) (s s' : PState) (F : KFs) (h : Inv R s F) (o
             have hko : ∀ o ∈ s.kout, o.id ≠ s.fsst := by
               intro o ho e
               have : s.kout.any (fun o => o.id == s.fsst) = true := List.any_eq_true.mpr ⟨o, ho, by simp [e]⟩
-              have h2 := hgd.2; rw [this] at h2; cases h2
-            exact Inv_of_eq R _ _ _ (Inv_flush1 R s F h k rest hi hp (by simpa using hgd.1) hko)
+              have h2 := hgd.1.2; rw [this] at h2; cases h2
+            exact Inv_of_eq R _ _ _ (Inv_flush1 R s F h k rest hi hp (by simpa using hgd.1.1) hko)
               (by constructor <;> first | rfl | exact hi.symm)
           · rw [if_neg hgd] at hf; cases hf
         · rw [hp] at hf
